@@ -67,7 +67,92 @@ func labelOf(k interface{}) (string, bool) {
 		}
 		return "m:" + n + "/" + l.InstanceName(), true
 	}
+	// structural label: walk the value and collect the labels of everything
+	// nameable inside it (e.g. a routing block is named by its targets)
+	var sb []byte
+	if deepLabel(rv, 0, &sb) && len(sb) > 0 {
+		return "d:" + string(sb), true
+	}
 	return "", false
+}
+
+// deepLabel appends a deterministic description of v; it reports false when v
+// contains something that has no stable description (a bare pointer, func...).
+func deepLabel(v reflect.Value, depth int, out *[]byte) bool {
+	if depth > 5 {
+		return true
+	}
+	if !v.IsValid() {
+		*out = append(*out, '-')
+		return true
+	}
+	if v.CanInterface() {
+		switch x := v.Interface().(type) {
+		case Labeler:
+			if v.Kind() != reflect.Ptr || !v.IsNil() {
+				*out = append(*out, x.SimLabel()...)
+				return true
+			}
+		case instNamer:
+			if (v.Kind() != reflect.Ptr || !v.IsNil()) && x.InstanceName() != "" {
+				*out = append(*out, x.InstanceName()...)
+				return true
+			}
+		case error:
+			if v.Kind() != reflect.Ptr || !v.IsNil() {
+				*out = append(*out, x.Error()...)
+				return true
+			}
+		}
+	}
+	switch v.Kind() {
+	case reflect.Ptr, reflect.Interface:
+		if v.IsNil() {
+			*out = append(*out, '-')
+			return true
+		}
+		return deepLabel(v.Elem(), depth+1, out)
+	case reflect.Struct:
+		*out = append(*out, '{')
+		for i := 0; i < v.NumField(); i++ {
+			if !deepLabel(v.Field(i), depth+1, out) {
+				return false
+			}
+			*out = append(*out, ';')
+		}
+		*out = append(*out, '}')
+		return true
+	case reflect.Slice, reflect.Array:
+		*out = append(*out, '[')
+		for i := 0; i < v.Len(); i++ {
+			if !deepLabel(v.Index(i), depth+1, out) {
+				return false
+			}
+			*out = append(*out, ',')
+		}
+		*out = append(*out, ']')
+		return true
+	case reflect.String:
+		*out = append(*out, v.String()...)
+		return true
+	case reflect.Int, reflect.Int8, reflect.Int16, reflect.Int32, reflect.Int64:
+		*out = append(*out, fmt.Sprint(v.Int())...)
+		return true
+	case reflect.Uint, reflect.Uint8, reflect.Uint16, reflect.Uint32, reflect.Uint64:
+		*out = append(*out, fmt.Sprint(v.Uint())...)
+		return true
+	case reflect.Bool:
+		*out = append(*out, fmt.Sprint(v.Bool())...)
+		return true
+	case reflect.Map:
+		// not descended into (order would matter); length only
+		*out = append(*out, fmt.Sprintf("map%d", v.Len())...)
+		return true
+	case reflect.Func, reflect.Chan, reflect.UnsafePointer:
+		*out = append(*out, '?')
+		return true
+	}
+	return true
 }
 
 // SortedKeys returns the keys of m in an order that depends on the keys only.
@@ -89,6 +174,11 @@ func SortedKeys[K comparable, V any](m map[K]V) []K {
 	if unl > 1 {
 		if s := Cur(); s != nil {
 			s.Stat("unordered_map_iterations")
+		}
+	}
+	if unl > 1 {
+		if s := Cur(); s != nil {
+			s.Stat(fmt.Sprintf("unordered:%T", ks[0].k))
 		}
 	}
 	sort.SliceStable(ks, func(i, j int) bool { return ks[i].l < ks[j].l })
